@@ -65,11 +65,13 @@ def directed_specs(ctx, n):
 def pre_build(ctx):
     import gen_units
     gen_units.pre_build(ctx, "translate_grid")
+    gen_units.pre_build(ctx, "translate_coreopt")
 
 
 def run(ctx):
     import gen_units
     gen_units.g_unit(ctx, "translate_grid")
+    gen_units.g_unit(ctx, "translate_coreopt")
     core_units.run(ctx, which="C08")
     ctx.assumptions.append("the quantitative bound is probabilistic (it needs the generators' distributions): proved are exit-at-first-feasible, "
                            "one evaluation per candidate, every feasible point being an immediate exit and the move_random escape of move_climb")
